@@ -123,10 +123,11 @@ func (a *Array) MarshalJSONBuffer(dst []byte) ([]byte, error) {
 // Interface returns the array as a slice of interfaces.
 // See Iter.Interface() for a reference on value types.
 func (a *Array) Interface() ([]interface{}, error) {
-	// Estimate length. Assume one value per element.
-	lenEst := (len(a.tape.Tape) - a.off - 1) / 2
-	if lenEst < 0 {
-		lenEst = 0
+	// Count the elements of this array only.
+	// Sizing by the remaining tape makes nested arrays allocate quadratically.
+	lenEst := 0
+	for c := a.Iter(); c.Advance() != TypeNone; {
+		lenEst++
 	}
 	dst := make([]interface{}, 0, lenEst)
 	i := a.Iter()
